@@ -1556,7 +1556,7 @@ def correspond(ctx):
     cfgs = base_configs()
     n_random_cfg = ctx.scale(8, 60)
     cfgs += [random_config(rng) for _ in range(n_random_cfg)]
-    cap = ctx.scale(35, 400)           # schedules kept per (cfg, rotation)
+    cap = ctx.scale(35, 280)           # schedules kept per (cfg, rotation)
     reqs, meta = [], []
     for cfg in cfgs:
         njobs = cfg.split(":")[0].count(".") + 1
@@ -1643,7 +1643,7 @@ def correspond(ctx):
 
     ctx.note(f"t+{time.time() - ctx.t0:.0f}s: tree probes done")
     # --- 3. random walks chosen on the real code ------------------------------------------------------------------------
-    n_walks = ctx.scale(250, 6000)
+    n_walks = ctx.scale(250, 4000)
     for _ in range(n_walks):
         cfg = random_config(rng) if rng.random() < 0.7 else rng.choice(base_configs())
         stick = rng.choice([0.0, 0.5, 0.8, 0.95])
@@ -1699,7 +1699,7 @@ def correspond(ctx):
 
     ctx.note(f"t+{time.time() - ctx.t0:.0f}s: model comparison done")
     # --- 5. real subprocesses ------------------------------------------------------------------------------------------
-    real_process_runs(ctx, ctx.scale(12, 250), literals)
+    real_process_runs(ctx, ctx.scale(12, 150), literals)
 
     if mismatch:
         mismatches.append(mismatch)
